@@ -13,7 +13,7 @@ VARIABLE i
 Init == i = 0
 Emit(p) ==
   LET r == Run(p) IN
-  Serialize(ToJson([id |-> p.id, out |-> r.out, err |-> r.err, errs |-> r.errs, zone |-> r.zone, insts |-> r.insts, elems |-> r.elems, marks |-> r.marks]) \o "\n",
+  Serialize(ToJson([id |-> p.id, out |-> r.out, err |-> r.err, errs |-> r.errs, zone |-> r.zone, insts |-> r.insts, elems |-> r.elems, marks |-> r.marks, deps |-> Deps(p, r.insts)]) \o "\n",
             IOEnv.OUT, [format |-> "TXT", charset |-> "UTF-8",
                         openOptions |-> <<"WRITE", "CREATE", "APPEND">>]).exitValue = 0
 Next == i < Len(Progs) /\ Emit(Progs[i + 1]) /\ i' = i + 1
